@@ -58,8 +58,9 @@ Fresh(used) == CHOOSE i \in 1..MaxTid : i \notin used
 Cancel(ts, k) == {t \in ts : ~(t.k = k /\ t.tid = expiry[k].tid)}       \* cancelTimerLocked: only a still armed timer
 
 CachedKeys(c) == {j \in Keys : c[j].val # 0}
-CacheUpd(c, k, v, e) ==            \* updateCache: set of possible results (victim choice)
-    IF Cardinality(CachedKeys(c)) >= CacheMax
+CacheUpd(c, k, v, e) ==            \* updateCache: set of possible results (victim choice); CacheMax = 0: cache disabled
+    IF CacheMax = 0 THEN {c}
+    ELSE IF Cardinality(CachedKeys(c)) >= CacheMax
     THEN {[[c EXCEPT ![vic] = NoC] EXCEPT ![k] = [val |-> v, exp |-> e]] : vic \in CachedKeys(c)}
     ELSE {[c EXCEPT ![k] = [val |-> v, exp |-> e]]}
 
